@@ -1383,4 +1383,11 @@ def viewSummary (net : Net) (b a : String) : Option (Bool × Bool × Option Nat 
   ((net.nodes.find b).bind (fun s => s.nodes.find a)).map
     (fun n => (n.left, n.unreachable, n.expiry, n.version))
 
+theorem localId_runOps {s : CState} (h : WF s) (ops : List COp) : (runOps s ops).localId = s.localId := by
+  induction ops generalizing s with
+  | nil => rfl
+  | cons op ops ih =>
+    show (runOps (op.apply s) ops).localId = _
+    rw [ih (wf_apply h op), localId_apply h op]
+
 end Piko.C11
